@@ -27,10 +27,10 @@ import (
 func init() {
 	ev.Register(&ev.Prop{
 		ID:    "C10",
-		Rule:  "typed generator including balance()/overdraft()/meta() variable origins (separate early store requests), saves, sources through variables, destination-only accounts; the content gives a balance to most accounts mentioned, to @world and to unrelated accounts; oracle (differential): result (postings, metadata, or error class) identical under the stores {exact, sparse, superset, static}; monitors: no request ever names world; non-trivial = the exact-store run issued >= 2 store requests, or a balance-limited account paid",
+		Rule:  "typed generator including balance()/overdraft()/meta() variable origins (separate early store requests), saves, sources through variables, destination-only accounts; the content gives a balance to most accounts mentioned, to @world and to unrelated accounts; oracle (differential): result (postings, metadata, or error class) identical under the stores {exact, sparse, sparse answering with nil maps, superset, static}; monitors: no request ever names world; non-trivial = the exact-store run issued >= 2 store requests, or a balance-limited account paid",
 		New:   newExecCase,
 		Check: checkC10,
-		Assumptions: []string{"a store answering with a nil map is not exercised (a nil map is Go's empty map for reads; the interface does not say who owns the returned map)"},
+		Assumptions: []string{"the panic of a store answering nil for a metadata request is C12's business: cases that panic are skipped here"},
 	})
 	Generators["C10"] = func(t *rapid.T, tier string) any {
 		if gen.Chance(t, "wide", 8) {
@@ -124,7 +124,7 @@ func checkC10(c any) *ev.Verdict {
 	text := gen.PrintCanonical(ec.Script)
 	results := map[string]hx.Real{}
 	stores := map[string]*doubles.Store{}
-	for _, mode := range []string{doubles.Exact, doubles.Sparse, doubles.Superset} {
+	for _, mode := range []string{doubles.Exact, doubles.Sparse, doubles.NilMaps, doubles.Superset} {
 		st := doubles.New(mode, hx.Content(ec))
 		results[mode] = hx.RunText(text, ec.Vars, st, ec.Flags)
 		stores[mode] = st
@@ -132,20 +132,20 @@ func checkC10(c any) *ev.Verdict {
 	results["static"] = hx.RunText(text, ec.Vars, staticStore(ec), ec.Flags)
 	ref := results[doubles.Exact]
 	outcomeLabel(ref, v)
-	for _, mode := range []string{doubles.Exact, doubles.Sparse, doubles.Superset, "static"} {
+	for _, mode := range []string{doubles.Exact, doubles.Sparse, doubles.NilMaps, doubles.Superset, "static"} {
 		if results[mode].Panic != "" || results[mode].ParseErrors > 0 {
 			v.Skipped = "panic or parse error (C12/C14 own these)"
 			return v
 		}
 	}
-	for _, mode := range []string{doubles.Exact, doubles.Sparse, doubles.Superset} {
+	for _, mode := range []string{doubles.Exact, doubles.Sparse, doubles.NilMaps, doubles.Superset} {
 		for _, call := range stores[mode].Calls {
 			if _, ok := call.Query["world"]; ok && call.Kind == "balances" {
 				return v.Failf("world-requested", "store mode %s: the balance of @world was requested (%v)", mode, call.Query)
 			}
 		}
 	}
-	for _, mode := range []string{doubles.Sparse, doubles.Superset, "static"} {
+	for _, mode := range []string{doubles.Sparse, doubles.NilMaps, doubles.Superset, "static"} {
 		if fullSummary(results[mode]) != fullSummary(ref) {
 			class := "store-dependence"
 			return v.Failf(class, "result under the exact store: %s\nresult under the %s store: %s\nrequests (exact run): %v", fullSummary(ref), mode, fullSummary(results[mode]), stores[doubles.Exact].Calls)
